@@ -34,7 +34,12 @@ def gen_tables(rng, profile):
     if profile == "settled":
         lens = [1000 if x == 1 else x for x in lens]
     if profile == "faults":
-        script = [rng.random() < 0.35 for _ in range(rng.randint(0, 12))]
+        # runs of refusals and acceptances, so that a track can be refused several times in a row
+        script = []
+        for _ in range(rng.randint(0, 5)):
+            script += [rng.random() < 0.5] * rng.randint(1, 4)
+        if rng.random() < 0.1:
+            script += [True] * 900   # a backend that refuses everything from some point on
     elif profile in ("settled",):
         script = []
     else:
